@@ -565,14 +565,14 @@ class ManifestContext:
         for item in errors:
             code, pos = item
             if isinstance(pos, int):
-                drop_seg = int(pos, 10)
+                drop_seg = pos
             else:
                 tm = availabilityStartTime.replace(
                     hour=pos.hour, minute=pos.minute, second=pos.second)
                 if tm < earliest_available:
                     continue
                 drop_delta = tm - availabilityStartTime
-                drop_seg = int(scale_timedelta(
+                drop_seg = representation.start_number + int(scale_timedelta(
                     drop_delta, representation.timescale,
                     representation.segment_duration))
             if code is None:
